@@ -20,7 +20,9 @@ CONSTANTS Words,          \* number of 64-bit words in the bitmap (2 or 512 in t
           MaxOps,         \* operations (GetStream / Clear) per thread
           InitFree,       \* ids that are free initially
           InitOffset,     \* initial value of the rotating word offset
-          DoubleClear     \* TRUE: a thread may Clear an id it has already released
+          DoubleClear,    \* TRUE: a thread may Clear an id it has already released
+          RaceClear       \* TRUE: a thread may Clear an id ANOTHER thread holds or is releasing (two
+                          \* release paths racing on one id); no GetStream starts after the first Clear
 
 N == Words * Bits
 Ids == 0 .. N - 1
@@ -79,8 +81,11 @@ ScanFrom(t, l, snap, j0) ==
        /\ res' = [res EXCEPT ![t] = [kind |-> "get_fail", val |-> 0]]
        /\ UNCHANGED held
 
+NoClearYet == \A u \in Threads : past[u] = {}
+
 StartGet(t) ==
   /\ pc[t] = "idle" /\ ops[t] < MaxOps
+  /\ (RaceClear => NoClearYet)
   /\ pc' = [pc EXCEPT ![t] = "g_load_offset"]
   /\ ops' = [ops EXCEPT ![t] = @ + 1]
   /\ freeAll' = [freeAll EXCEPT ![t] = Ids \ used]
@@ -142,13 +147,18 @@ GAddInuse(t) ==
 
 StartClear(t, id) ==
   /\ pc[t] = "idle" /\ ops[t] < MaxOps
+  \* under RaceClear every GetStream has finished before the first Clear starts (otherwise a
+  \* repeated Clear could hit an id somebody re-acquired, which is the caller's error)
+  /\ (RaceClear => \A u \in Threads : pc[u] \in {"idle", "c_load_word", "c_cas_word", "c_reload_word", "c_dec_inuse"})
   /\ \/ id \in held[t]
      \/ DoubleClear /\ id \in past[t]
+     \/ RaceClear /\ \E u \in Threads : id \in held[u] \cup past[u]
   /\ pc' = [pc EXCEPT ![t] = "c_load_word"]
   /\ ops' = [ops EXCEPT ![t] = @ + 1]
-  /\ held' = [held EXCEPT ![t] = @ \ {id}]
+  \* the logical hold ends when any release path starts (under RaceClear several paths may)
+  /\ held' = [u \in Threads |-> IF u = t \/ RaceClear THEN held[u] \ {id} ELSE held[u]]
   /\ past' = [past EXCEPT ![t] = @ \cup {id}]
-  /\ loc' = [loc EXCEPT ![t] = [Loc0 EXCEPT !.id = id, !.first = (id \in held[t])]]
+  /\ loc' = [loc EXCEPT ![t] = [Loc0 EXCEPT !.id = id, !.first = (id \in held[t] /\ ~RaceClear)]]
   /\ res' = [res EXCEPT ![t] = NoRes]
   /\ UNCHANGED <<used, offset, inuse, freeAll>>
 
@@ -237,7 +247,11 @@ NoFalseExhaustion == \A t \in Threads : res[t].kind = "get_fail" => freeAll[t] =
 ClearReports ==
   \A t \in Threads :
     /\ (res[t].kind = "clear_true" => res[t].val \in past[t])
-    /\ (~DoubleClear /\ res[t].kind = "clear_false" => FALSE)
+    /\ (~DoubleClear /\ ~RaceClear /\ res[t].kind = "clear_false" => FALSE)
+
+\* racing releases of one id: at most one of them reports true (the counter stays exact)
+OneTrueRelease ==
+  RaceClear => \A id \in Ids : Cardinality({t \in Threads : res[t] = [kind |-> "clear_true", val |-> id]}) <= 1
 
 \* action property: a repeated Clear of an id nobody re-acquired changes nothing
 DoubleClearHarmless ==
